@@ -5,6 +5,7 @@ use serde_json::Value;
 pub mod c06;
 pub mod c07;
 pub mod c08;
+pub mod c09;
 pub mod c10;
 pub mod c12;
 pub mod c13;
@@ -23,6 +24,7 @@ pub fn run(prop: &str, opts: &Opts) -> Vec<Report> {
         "C06" => c06::run(opts),
         "C07" => c07::run(opts),
         "C08" => c08::run(opts),
+        "C09" => c09::run(opts),
         "C10" => c10::run(opts),
         "C12" => c12::run(opts),
         "C13" => c13::run(opts),
@@ -42,6 +44,7 @@ pub fn replay(prop: &str, case: &Value) -> ReplayResult {
         "C06" => c06::replay(case),
         "C07" => c07::replay(case),
         "C08" => c08::replay(case),
+        "C09" => c09::replay(case),
         "C10" => c10::replay(case),
         "C12" => c12::replay(case),
         "C13" => c13::replay(case),
